@@ -1,6 +1,8 @@
 import TTV.Model.StreamConvert
 import TTV.Spec.C09
 import TTV.Props.C10
+import TTV.Lemmas.ConvertSrc
+import TTV.Generated.ConvertSrc
 /-! # C09 — TestResult → StreamResult → TestResult conversion preserves every test
 
 All statements are for **every** well-formed history (any number of tests, any outcome kinds and payloads, any
@@ -729,5 +731,24 @@ example : (toStream (demo.runs.getD 1 [])).map (·.timestamp) = [some .now, some
 example : (reportsOf { gtags := [], now := none } (demo.runs.getD 0 [])).map (fun r => (r.id, r.status, r.tags, r.details.length))
     = [(0, .fail, [2], 1), (1, .skip, [1], 1), (0, .fail, [1], 1)] := by decide
 example : encode [119, 233, 8364, 0x1F600] = [119, 0xC3, 0xA9, 0xE2, 0x82, 0xAC, 0xF0, 0x9F, 0x98, 0x80] := by decide
+
+/-! ## tie to the source (`harness/pystream.py` → `TTV/Generated/ConvertSrc.lean`, regenerated on every run) -/
+open TTV.ConvertSrc in
+/-- **`_convert` is the code's**: for every outcome (called as the `add…` methods call it: `err` or `details`, reason for a
+skip) the model's `convert` — `traceback` detail for an exc_info, per detail the chunk loop with its one-chunk look-ahead
+(`eof` only on the event after the loop, an empty chunk if there was none), the reason file, one final status event with the
+current tags — is the interpretation of the statement skeleton found in the source -/
+theorem C09_src_convert (id : Nat) (ts : Ts) (tags : List Nat) (r : Result) :
+    vInterp id ts tags (callArgs r) Generated.ConvertSrc.convert (callArgs r).details = some (Convert.convert id ts tags r) := by
+  have h : Generated.ConvertSrc.convert = refConvert := by decide
+  rw [h]; exact vInterp_ref id ts tags r
+
+open TTV.ConvertSrc in
+/-- **`startTestRun` is the code's**: whatever the converter's state was (tags and clock of an earlier run), after
+`startTestRun` it is the state every run of the model starts from: no run-level tags, no supplied time -/
+theorem C09_src_start_test_run (s0 : St) :
+    xInterp Generated.ConvertSrc.startTestRun s0 = some { gtags := [], now := none } := by
+  have h : Generated.ConvertSrc.startTestRun = refStart := by decide
+  rw [h]; rfl
 
 end TTV.Props.C09
